@@ -21,6 +21,11 @@ def main():
     res = common.Result()
     tmp = tempfile.mkdtemp(prefix='vf_%s_%d_' % (prop, idx), dir=os.environ.get('VERIF_TMP'))
     t0 = time.time()
+    cov = None
+    if os.environ.get('VERIF_LINECOV'):
+        from .mon import linecov
+        cov = linecov.LineCov(common.REPO)
+        cov.start()
     try:
         mod.run_shard(tier, seed, idx, n, res, tmp)
     except Exception:
@@ -28,6 +33,9 @@ def main():
     finally:
         shutil.rmtree(tmp, ignore_errors=True)
     d = res.dump()
+    if cov is not None:
+        cov.stop()
+        d['linecov'] = cov.dump()
     d['wall_s'] = time.time() - t0
     with open(out, 'w') as f:
         json.dump(common.jsonable(d), f)
